@@ -39,8 +39,10 @@ MCVals ==
         S("bytes", <<>>), S("bytes", <<122>>), S("bytes", <<120, 121, 122>>)}
   \cup {Bv(TRUE), Bv(FALSE), Oth("float64"), Oth("nil"), Oth("struct")}
 
-\* "", "0", "1", "4", "10", "21", "22", "23", "30", "31", "32", "40", "1000000"
-MCWidthStrs == {<<>>, <<48>>, <<49>>, <<52>>, <<49, 48>>, <<50, 49>>, <<50, 50>>, <<50, 51>>, <<51, 48>>, <<51, 49>>, <<51, 50>>,
+\* "", "0", "1", "2", "3", "4", "10", "16", "17", "19", "20", "21", "22", "23", "30", "31", "32", "40", "1000000"
+\* (2/3: sign + one digit exactly fills / overflows; 16/17: 64-bit hex; 19/20: 64-bit decimal + sign; 21-23: 64-bit octal + sign)
+MCWidthStrs == {<<>>, <<48>>, <<49>>, <<50>>, <<51>>, <<52>>, <<49, 48>>, <<49, 54>>, <<49, 55>>, <<49, 57>>, <<50, 48>>,
+                <<50, 49>>, <<50, 50>>, <<50, 51>>, <<51, 48>>, <<51, 49>>, <<51, 50>>,
                 <<52, 48>>, <<49, 48, 48, 48, 48, 48, 48>>}
-MCWidthStrsQuick == {<<>>, <<52>>, <<50, 50>>, <<51, 49>>, <<51, 50>>, <<49, 48, 48, 48, 48, 48, 48>>}
+MCWidthStrsQuick == {<<>>, <<50>>, <<52>>, <<49, 55>>, <<50, 48>>, <<50, 50>>, <<51, 49>>, <<51, 50>>, <<49, 48, 48, 48, 48, 48, 48>>}
 ====
